@@ -189,6 +189,8 @@ def eval_formulas(formulas, values=None, overrides=None, extra_sheets=None, min_
         cls = load_class(translate(sheets))
         ex = executor_for(cls)
         if overrides:
+            for i in range(len(formulas)):          # everything is asked once before the overrides arrive: nothing computed now may survive them
+                core.outcome(lambda i=i: ex.get_cell(m['Cell'](0, fcol, i)).value)
             ex.set_cells([m['Cell'](0, c, r, v) for (c, r), v in overrides.items()])
         for i in range(len(formulas)):
             outs.append(core.outcome(lambda i=i: ex.get_cell(m['Cell'](0, fcol, i)).value))
